@@ -378,6 +378,8 @@ pub fn normalise_msg(m: &str) -> String {
     out
 }
 
+static FRAME_CACHE: std::sync::Mutex<std::collections::BTreeMap<String, String>> = std::sync::Mutex::new(std::collections::BTreeMap::new());
+
 pub fn install_panic_hook() {
     std::panic::set_hook(Box::new(|info| {
         let msg = if let Some(s) = info.payload().downcast_ref::<&str>() {
@@ -389,9 +391,25 @@ pub fn install_panic_hook() {
         };
         let mut loc = info.location().map(|l| format!("{}:{}", l.file(), l.line())).unwrap_or_default();
         // the signature names the cc6502 function containing the panic site (stable when
-        // unrelated lines move; distinguishes two unwrap()s of one file)
-        let bt = std::backtrace::Backtrace::force_capture().to_string();
-        if let Some(f) = first_cc6502_frame(&bt) {
+        // unrelated lines move; distinguishes two unwrap()s of one file). Capturing and symbolising
+        // a backtrace is slow (and serialised between threads): a panic site inside cc6502's own
+        // sources always lies in the same function, so its answer is remembered per location.
+        let in_cc6502 = loc.contains("/repo/src/") || loc.starts_with("src/");
+        let cached = if in_cc6502 { FRAME_CACHE.lock().ok().and_then(|c| c.get(&loc).cloned()) } else { None };
+        let frame = match cached {
+            Some(f) => Some(f),
+            None => {
+                let bt = std::backtrace::Backtrace::force_capture().to_string();
+                let f = first_cc6502_frame(&bt);
+                if in_cc6502 {
+                    if let (Some(f), Ok(mut c)) = (&f, FRAME_CACHE.lock()) {
+                        c.insert(loc.clone(), f.clone());
+                    }
+                }
+                f
+            }
+        };
+        if let Some(f) = frame {
             loc = format!("{}@{}", f, loc);
         }
         LAST_PANIC.with(|p| *p.borrow_mut() = Some((msg, loc)));
